@@ -516,11 +516,10 @@ func callSSA(i *interpreter, caller *frame, callpos token.Pos, fn *ssa.Function,
 			}
 		}
 		name := fn.String()
-		if len(i.replacements) > 0 && i.stubDepth == 0 {
+		if len(i.replacements) > 0 {
+			// harness-level replacement (stubs never call the function they replace)
 			if rep, ok := i.replacements[name]; ok {
 				ex.noteStub("replacement:" + name)
-				i.stubDepth++
-				defer func() { i.stubDepth-- }()
 				return call(i, caller, callpos, rep, args)
 			}
 		}
